@@ -24,6 +24,7 @@ them with the real HMAC/SHA-256/RSA; the model is parametric in them:
   jwtrs now= keys=<id>/<typ>/<key>/<notAfter>/<notBefore>;... tok=
   self now= keys=... user= host= tok=
   claims c=<iss>/<scope>/<aud>/<typ>/<sub>|nil t=<...>|nil
+  conc kind= n= ms= seed= k=        (executed concurrently by the harness; the model answers ok)
   pc reset | create | remove | disable | enable | issue now= expiry= | setup now= claim=right|old|wrong|empty id=
 -/
 import PubModel.C16.Glue
@@ -210,6 +211,9 @@ def step (st : DrvState) (line : String) : DrvState × String :=
   | op :: _ =>
     let out : String :=
       match op with
+      -- concurrent verification on shared objects: by the iff theorems (verification is a
+      -- function of key and token) no forgery verifies and every genuine token does
+      | "conc" => "ok"
       | "hexdec" => match hx "s" with
         | some s => showOpt (hexDecodeGo s)
         | none => "bad-op"
